@@ -304,6 +304,8 @@ class C16(Prop):
                     idk = "$id" if "$id" in meta or "id" not in meta else "id"
                     meta[idk] = "http://verif.test/meta-%d-%d" % (n, fresh_ids)
                     kw = dict(meta_schema=meta, validators=dict(c.VALIDATORS), type_checker=c.TYPE_CHECKER, id_of=c.ID_OF)
+                    if fl % 2 == 1:
+                        del kw["type_checker"]      # documented: a default type checker is then used
                     if op == "create_versioned":
                         kw["version"] = "verif %d" % n
                     w.add("cls", V.create(**kw), desc)
